@@ -257,3 +257,44 @@ def stmts_vars(b, acc=None):
 
 def prog_vars(p):
     return sorted(stmts_vars(p["init"]) | stmts_vars(p["body"]))
+
+
+# ---- JSON round trip (replay files) ------------------------------------------------------
+def to_json(x):
+    if isinstance(x, Fraction):
+        return {"q": f"{x.numerator}/{x.denominator}"}
+    if isinstance(x, (list, tuple)):
+        return [to_json(y) for y in x]
+    if isinstance(x, dict):
+        return {"d": {k: to_json(v) for k, v in x.items()}}
+    return x
+
+
+def from_json(x, top=True):
+    if isinstance(x, dict):
+        if "q" in x and len(x) == 1:
+            return Fraction(x["q"])
+        return {k: from_json(v, False) for k, v in x["d"].items()}
+    if isinstance(x, list):
+        ys = [from_json(y, False) for y in x]
+        # statements / expressions are tuples whose first element is a tag string; bodies are lists
+        if ys and isinstance(ys[0], str) and ys[0] in TAGS:
+            return tuple(ys)
+        if len(ys) == 2 and not (ys and isinstance(ys[0], str)):
+            # pairs (prob, value), (cond, block), (var, rhs) are tuples in the AST
+            return tuple(ys) if _is_pair(ys) else ys
+        return ys
+    return x
+
+
+TAGS = {"const", "var", "add", "sub", "mul", "neg", "pow", "true", "false", "atom", "not", "and", "or", "bern", "cat", "unif",
+        "cont", "choice", "draw", "assign", "simult", "if"}
+
+
+def _is_pair(ys):
+    a, b = ys
+    if isinstance(a, tuple) and a and a[0] in ("const", "var", "add", "sub", "mul", "neg", "pow"):
+        return True       # (prob_expr, value_expr)
+    if isinstance(a, tuple) and a and a[0] in ("true", "false", "atom", "not", "and", "or"):
+        return True       # (cond, block)
+    return False
